@@ -235,7 +235,9 @@ func (fr *Frame) instr(in ssa.Instruction, h Heap) Heap {
 			rs = append(rs, fr.val(r))
 		}
 		fr.rets = append(fr.rets, retInfo{guard: fr.curGuard, results: rs, heap: h})
-		if fr.top {
+		// postconditions describe normal returns; the return of the Recover block (after a deferred
+		// handler recovered a panic) is covered by the handler's own contract
+		if fr.top && !(fr.fn.Recover != nil && x.Block() == fr.fn.Recover) {
 			fr.checkEnsures(x, rs, h)
 		}
 		return h
